@@ -49,6 +49,12 @@ func (v *Vue) evalAttributes(ctx VueContext, n *html.Node) (map[string]any, erro
 			key = boundName
 		}
 
+		// (the names of the internal content attributes are taken: a value bound to one of them
+		// would be written out as the content of the element, unescaped)
+		if boundName != a.Key && (boundName == "data-v-html-content" || boundName == "data-v-text-content") {
+			return nil, fmt.Errorf("error evaluating attr %s: the name is reserved", boundName)
+		}
+
 		switch {
 		case boundName != key:
 			boundValue, err := v.evalBoundAttribute(ctx, boundName, val)
